@@ -24,6 +24,20 @@ def expected(t, m):
     return zckref.H(t, m).hex()
 
 
+def expected_long(t, msg, ln):
+    """digest of msg repeated cyclically up to ln bytes (hashlib, streamed)"""
+    h = zckref.hnew(t)
+    full, rest = divmod(ln, len(msg))
+    big = msg * 64
+    while full >= 64:
+        h.update(big)
+        full -= 64
+    for _ in range(full):
+        h.update(msg)
+    h.update(msg[:rest])
+    return h.digest()[:zckref.DIGEST_SIZE[t]].hex()
+
+
 def hash_worker(case):
     cdir = case["dir"]
     os.makedirs(cdir, exist_ok=True)
@@ -37,7 +51,7 @@ def hash_worker(case):
         open(os.path.join(cdir, "cases"), "w").write("\n".join("%d %d %d %s %d" % tuple(l) for l in lines) + "\n")
         outs = {}
         for name, binp in case["bins"].items():
-            r = core.run_proc([binp, "msg.bin", "cases", "out." + name], cdir, cpu=300, wall=1800)
+            r = core.run_proc([binp, "msg.bin", "cases", "out." + name], cdir, cpu=case.get("cpu", 300), wall=case.get("cpu", 300) * 6)
             if r.timed_out and not r.cpu_exceeded:
                 return core.verdict(cid, "inconclusive", detail="watchdog", case=case)
             cs = core.crash_signatures(r, where="hash:" + name)
@@ -55,8 +69,10 @@ def hash_worker(case):
         nontriv = set()
         for i, l in enumerate(lines):
             t, off, ln, mode, param = l
-            want = expected(t, msg[off:off + ln])
+            want = expected_long(t, msg, ln) if mode == "G" else expected(t, msg[off:off + ln])
             got = {n: outs[n][i].split()[0] for n in outs}
+            if mode == "G":
+                stats["long_messages(>=2^29 bytes)"] = stats.get("long_messages(>=2^29 bytes)", 0) + 1
             stats["evaluations"] += len(outs)
             stats["digests_type%d" % t] = stats.get("digests_type%d" % t, 0) + 1
             nontriv.add(core.h8(l))
@@ -69,7 +85,8 @@ def hash_worker(case):
             keep = True
             return core.verdict(cid, "violated", [viol[0]], stats, detail=viol[1], cdir=cdir, case=case)
         l = lines[len(lines) // 2]
-        return core.verdict(cid, "held", stats=stats, nontrivial=nontriv, sample={"type": l[0], "len": l[2], "mode": l[3], "param": l[4], "digest": expected(l[0], msg[l[1]:l[1] + l[2]])[:32]})
+        return core.verdict(cid, "held", stats=stats, nontrivial=nontriv, sample={"type": l[0], "len": l[2], "mode": l[3], "param": l[4],
+                                                                                   "digest": (expected_long(l[0], msg, l[2]) if l[3] == "G" else expected(l[0], msg[l[1]:l[1] + l[2]]))[:32]})
     finally:
         core.cleanup_case(cdir, keep)
 
@@ -146,7 +163,8 @@ class C18(core.Check):
     prop = "C18"
     flavours = ["asan", "bundled-asan"]
     rule = ("digests: 4 types x every message length 0..520 x {whole, one byte per update, pieces of 55/56/63/64/65/111/112/119/120/127/128/129 bytes, split at every "
-            "position for lengths <= 130, random pieces}; random messages up to 1 MiB with random segmentation; each computed by the OpenSSL build and by the "
+            "position for lengths <= 130, random pieces}; random messages up to 1 MiB with random segmentation; long generated messages of 2^29+-k bytes (thorough: all four types, "
+            "and 2^32+3 bytes) where 32-bit bit/byte counters wrap; each computed by the OpenSSL build and by the "
             "bundled build (both ASan+UBSan) and compared with hashlib (SHA-512/128 = first 16 bytes of SHA-512); cross-build files: writer cases whose outputs "
             "must be byte-identical and validate/read back under the other build. distinct = (type, offset, length, segmentation)")
     assumptions = ["third party: Python hashlib", "both flavours built from the same tree, differing only in -Dwith-openssl"]
@@ -185,6 +203,11 @@ class C18(core.Check):
         per = max(500, len(lines) // 32)
         for i in range(0, len(lines), per):
             out.append({"w": "hash", "batch": i, "lines": lines[i:i + per], "bins": ctx["bins"], "seed": self.seed})
+        # long messages: the length counters of the back ends (bit length >= 2^32, byte length >= 2^32)
+        longs = [(1, (1 << 29) + 77, 65536), (2, (1 << 29) + 5, 1 << 20)] if q else \
+            [(t, ln, pc) for t in range(4) for ln, pc in (((1 << 29) - 1, 999983), (1 << 29, 65536), ((1 << 29) + 12345, 1 << 20), ((1 << 32) + 3, 1 << 20))]
+        for k, (t, ln, pc) in enumerate(longs):
+            out.append({"w": "hash", "batch": "long%d" % k, "lines": [[t, 0, ln, "G", pc]], "bins": ctx["bins"], "seed": self.seed, "cpu": 1200})
         # cross-build files
         for i in range(100 if q else 3000):
             cfg = {"comp": r.choice([0, 2]), "level": r.choice([1, 3]), "chunk_hash": r.randrange(4), "full_hash": r.randrange(4), "manual": r.random() < 0.3,
